@@ -100,6 +100,31 @@ Proof.
   repeat split; apply action_eqb_eq; assumption.
 Qed.
 
+(* every byte the printer leaves as it is between bars is a plain byte of the reader's symbol mode *)
+Lemma pipe_ok_raw b : b < 256 -> pipe_ok_byte b = true -> act T03 MSymbol b = AStrByte.
+Proof.
+  intros Hr H. apply action_eqb_eq.
+  assert (G : implb (pipe_ok_byte b) (action_eqb (act T03 MSymbol b) AStrByte) = true).
+  { clear H. revert b Hr. apply (forall_bytes (fun b => implb (pipe_ok_byte b) (action_eqb (act T03 MSymbol b) AStrByte))). vm_compute. reflexivity. }
+  rewrite H in G. exact G.
+Qed.
+
+(* a byte needPipeMap does not flag is a token constituent, and starts a token unless it is @ ; & starts one too *)
+Lemma unflagged_token_byte b : b < 256 -> need_pipe b = false -> token_byte b = true.
+Proof.
+  intros Hr H.
+  assert (G : implb (negb (need_pipe b)) (token_byte b) = true).
+  { clear H. revert b Hr. apply (forall_bytes (fun b => implb (negb (need_pipe b)) (token_byte b))). vm_compute. reflexivity. }
+  rewrite H in G. exact G.
+Qed.
+Lemma unflagged_token_first b : b < 256 -> need_pipe b && negb (b =? 38) = false -> (b =? 64) = false -> token_first b = true.
+Proof.
+  intros Hr H H64.
+  assert (G : implb (negb (need_pipe b && negb (b =? 38)) && negb (b =? 64)) (token_first b) = true).
+  { clear H H64. revert b Hr. apply (forall_bytes (fun b => implb (negb (need_pipe b && negb (b =? 38)) && negb (b =? 64)) (token_first b))). vm_compute. reflexivity. }
+  rewrite H, H64 in G. exact G.
+Qed.
+
 (* characters *)
 Lemma high_byte_char b : 128 <= b -> b < 256 -> act T03 MChar b = ASkip.
 Proof.
